@@ -113,6 +113,13 @@ package poll
 //@ requires p != nil && p.sq != nil && !closed(p.sq)
 //@ ensures result == (sends(p.sq) == 1)
 //@ ensures sends(p.sq) <= 1
+// the plugin reports a refused message through its result only: the caller answers it (a Done call here would
+// complete the hand-off twice)
+//@ funcvalue \.Done$ records done
+//@ ensures [body C12 C18 C08] calls("done") == 0
+// called on the kernel loop: never waits (the only send is the non-blocking one)
+//@ site send assert false
+//@ site select assert !blocking
 
 // The streaming handler: a listener that was registered (Connect succeeded) reports its departure exactly once
 // on every way out - a failed write as well as a cancelled request - unless the registry itself closed its
